@@ -3,7 +3,8 @@ From Coq Require Import List String.
 From VQ.Gen Require Import o_rpq_eval.
 Import ListNotations.
 Open Scope string_scope.
-Lemma pin_o_rpq_eval : o_rpq_eval =
+Definition pinned_o_rpq_eval : list (string * string) :=
   [("self.vq.eval", "");
    ("self.vq", "x")].
+Lemma pin_o_rpq_eval : o_rpq_eval = pinned_o_rpq_eval.
 Proof. reflexivity. Qed.
